@@ -78,16 +78,22 @@ def compare(shape, rec, want, got):
     wr, _, wl = want.partition("|")
     gr, _, gl = got.partition("|")
     out = []
+    # a chain that went on past the link that should have ended it: its result and log are consequences
+    continued = shape["part"] == "chain" and gl.startswith(wl) and len(gl) > len(wl)
     if wr != gr:
         oc = obs_class(wr, gr)
         impl = rec.get("impl")
         if impl is not None and rec.get("hz") and gr == impl:
             oc = "as-flatten-model" if shape["part"] == "member" else "as-char-model"
+        elif continued:
+            oc = "result-of-continued-chain"
         out.append(("result", oc))
     if wl != gl:
         oc = "wrong-log"
         if shape["part"] == "member" and shape["form"] == "leaf" and gl == "".join(map(str, rec["ilog"])):
             oc = "members-before-x"
+        elif continued:
+            oc = "continued-past-raising-link" if wr.startswith("E:") else "continued-past-false-link"
         out.append(("log", oc))
     return out
 
@@ -223,7 +229,7 @@ def run(tier, seed):
         core.die("Compare/switch published %d cases, expected %d" % (len(swcases), nsw_want))
     by_fam = {"bytes": [c for c in swcases if c["fam"] == "bytes" and not c["hz"]], "ustr": [c for c in swcases if c["fam"] == "ustr" and not c["hz"]]}
     hazards = [c for c in swcases if c["hz"]]
-    per_typing = 50 if quick else 420
+    per_typing = 50 if quick else 300
     swfuncs = []    # dicts: name, case, typing, kind ('chain'|'expr'), neg, ectx, pyx, py
     k = 0
     for fam, typings in lc.SW_TYPINGS.items():
